@@ -155,6 +155,12 @@ pub fn setup(r: &mut Rng, thorough: bool, scheme: SchemeType) -> Option<Setup> {
     make(scheme, n, &qs, t, true, None)
 }
 
+/// a parameter set of the wide-plain-modulus family (t > 2^32), found by re-drawing `setup` (deterministic in the seed)
+pub fn setup_wide_t(r: &mut Rng, thorough: bool, scheme: SchemeType) -> Option<Setup> {
+    for _ in 0..80 { if let Some(s) = setup(r, thorough, scheme) { if s.t > (1u64 << 32) { return Some(s); } } }
+    None
+}
+
 /// plaintext-operand corner cases on a fresh ciphertext: monomials / constants with negative (upper-half) coefficients of large and
 /// small magnitude, positive ones, two-term and full plaintexts — through multiply_plain (coefficient-form and NTT-form plaintext),
 /// add_plain and sub_plain.  These select the special-cased paths of `multiply_plain_normal` and the plaintext lifts.
